@@ -357,7 +357,10 @@ where
         }
         Ok(None) => {}
         Err(e) => {
-            if src.seen_doc_end() && !matches!(e.without_snippet(), Error::Budget { .. }) {
+            if src.seen_doc_end()
+                && !matches!(e.without_snippet(), Error::Budget { .. })
+                && !e.is_content_after_unterminated_document()
+            {
                 // Trailing garbage after a proper document end marker is ignored.
             } else {
                 return Err(maybe_with_snippet(e, input, with_snippet, crop_radius));
@@ -463,7 +466,10 @@ fn from_str_with_options_and_path_recorder<T: DeserializeOwned>(
         }
         Ok(None) => {}
         Err(e) => {
-            if src.seen_doc_end() && !matches!(e.without_snippet(), Error::Budget { .. }) {
+            if src.seen_doc_end()
+                && !matches!(e.without_snippet(), Error::Budget { .. })
+                && !e.is_content_after_unterminated_document()
+            {
                 // ignore trailing garbage
             } else {
                 return Err(maybe_with_snippet(e, input, with_snippet, crop_radius));
@@ -760,7 +766,10 @@ where
         }
         Ok(None) => {}
         Err(e) => {
-            if src.seen_doc_end() && !matches!(e.without_snippet(), Error::Budget { .. }) {
+            if src.seen_doc_end()
+                && !matches!(e.without_snippet(), Error::Budget { .. })
+                && !e.is_content_after_unterminated_document()
+            {
                 // Trailing garbage after a proper document end marker is ignored.
             } else {
                 return Err(e);
@@ -1153,7 +1162,10 @@ where
         }
         Ok(None) => {}
         Err(e) => {
-            if src.seen_doc_end() && !matches!(e.without_snippet(), Error::Budget { .. }) {
+            if src.seen_doc_end()
+                && !matches!(e.without_snippet(), Error::Budget { .. })
+                && !e.is_content_after_unterminated_document()
+            {
                 // Trailing garbage after a proper document end marker is ignored.
             } else {
                 return Err(e);
@@ -1770,7 +1782,10 @@ pub fn from_reader_with_options<'a, R: std::io::Read + 'a, T: DeserializeOwned>(
         }
         Ok(None) => {}
         Err(e) => {
-            if src.seen_doc_end() && !matches!(e.without_snippet(), Error::Budget { .. }) {
+            if src.seen_doc_end()
+                && !matches!(e.without_snippet(), Error::Budget { .. })
+                && !e.is_content_after_unterminated_document()
+            {
                 // Trailing garbage after a proper document end marker is ignored.
             } else {
                 return Err(attach_snippet(e));
